@@ -232,6 +232,34 @@ def run_lin_job(job, scratch):
                       "stuck_at": (lines[stuck - 1][:300] if stuck - 1 < len(lines) else "end"),
                       "context": [("inv c%d " % e["cl"]) + summ(e["call"]) if e["ev"] == "inv" else "ret c%d %d" % (e["cl"], e["call"]["i"])
                                   for e in evs[:stuck - starts[sg] + 1] if e.get("ev") in ("inv", "ret")][-60:]})
+    # crash images cut inside the concurrent part: second search with the replies of read-only calls unchecked (NfsLin.tla)
+    if "-crashpoints" in job["driver"]:
+        outr, str_ = run_tlc("NfsLin.tla", "NfsLin.cfg", scratch, env={"TRACE": trace, "RELAX": "1"}, timeout=job.get("tlc_timeout", 3000), xmx="6g")
+        if "No error has been found" not in outr:
+            raise Infra("NfsLin (RELAX) search failed on %s:\n%s" % (trace, outr[-3000:]))
+        st["distinct"] += str_["distinct"]; st["generated"] += str_["generated"]; st["wall"] += str_["wall"]
+        hwr = {}
+        for ln in outr.splitlines():
+            m = re.match(r'"HW (-?\d+) (\d+) (\d+)"', ln.strip())
+            if m:
+                hwr[int(m.group(1))] = int(m.group(3))
+        for ln in outr.splitlines():
+            m = re.match(r'"UNMATCHED (\d+)"', ln.strip())
+            if not m:
+                continue
+            u = int(m.group(1))
+            sg = max((g for g in order if starts[g] <= u), default=None)
+            if sg is None or hwr.get(sg, 0) <= u:
+                continue   # the search did not get this far in that history (reported above)
+            ev = json.loads(lines[u - 1])
+            before = [json.loads(x) for x in lines[starts[sg] - 1:u - 1]]
+            small = {k: ev[k] for k in ("ev", "p", "nlost", "window", "ok", "err")}
+            small["dump"] = ev["dump"]
+            viols.append({"line": u, "seg": sg, "rules": ["C01,C03:recovered-tree-of-a-concurrent-history-matches-no-linearization-prefix"],
+                          "ev": "crashprobe", "proc": "", "job": job["name"], "driver_cmd": job["driver"], "event": small,
+                          "driver": "conc", "seed": before[0].get("seed", 0) if before else 0,
+                          "context": [("inv c%d " % e["cl"]) + summ(e["call"]) if e["ev"] == "inv" else "ret c%d %d" % (e["cl"], e["call"]["i"])
+                                      for e in before if e.get("ev") in ("inv", "ret")][-60:]})
     # structural pass: the final snapshot of every history (also of those without a linearization)
     strace = trace + ".snaps"
     with open(strace, "w") as f:
@@ -240,6 +268,8 @@ def run_lin_job(job, scratch):
                 f.write(ln)
             elif ln.startswith('{"ev":"snap"'):
                 f.write(ln.replace('"who":"run"', '"who":"conc"', 1))
+            elif ln.startswith('{"ev":"crashprobe"'):
+                f.write(ln.replace('"ev":"crashprobe"', '"ev":"crashstruct"', 1))
     out2, st2 = run_tlc("NfsTrace.tla", "NfsTrace.cfg", scratch, env={"TRACE": strace}, timeout=1200)
     v2, consumed = parse_trace_out(out2)
     if consumed is None or consumed[0] != consumed[1]:
@@ -659,6 +689,16 @@ def crash_job(name, seed, profile, segs, steps, avoid, disk=2000, extra=None):
                        "-avoid", avoid, "-disk", str(disk)] + (extra or [])}
 
 
+def conccrash_job(name, seed, clients, segs, steps, avoid, maximg=60, loss=2, also=None):
+    """concurrent history + crash images cut inside it: NfsLin (tree = some linearization prefix) + FsStruct on each recovered image"""
+    j = {"name": name, "kind": "lin", "driver_timeout": 3000,
+         "driver": ["conc", "-seed", str(seed), "-segs", str(segs), "-steps", str(steps), "-clients", str(clients), "-avoid", avoid,
+                    "-crashpoints", "-loss", str(loss), "-maximg", str(maximg), "-disk", "8000"]}
+    if also:
+        j["also"] = also
+    return j
+
+
 def probe_job(prop, avoid):
     return {"name": "probes-" + prop, "module": "NfsTrace.tla", "cfg": "NfsTrace.cfg",
             "driver": ["probes", "-prop", prop]}
@@ -719,12 +759,16 @@ def plan(prop, tier, seed, known):
             jobs.append({"name": "lin%d" % i, "kind": "lin",
                          "driver": ["conc", "-seed", str(seed * 100 + 70 + i), "-segs", "10" if q else "40", "-steps", "10",
                                     "-clients", str(2 + i % 3), "-avoid", av]})
+        for i in range(2 if q else 16):   # crash images of concurrent runs (incl. images taken while a large file is being freed)
+            jobs.append(conccrash_job("conccrash%d" % i, seed * 100 + 80 + i, 2 + i % 3, 3 if q else 6, 6 if q else 8, av, 60 if q else 150, 2 if q else 4))
     elif prop == "C05":
         n = 5 if q else 40
         for i in range(n):
             jobs.append(seq_job("reclaim%d" % i, seed * 100 + i, "data,recycle,dirs,mix", 4 if q else 8, 200 if q else 400, av,
                                 disk=8000, extra=["-snapeach", "7", "-deleteall"]))
         jobs.append(probe_job(prop, av))
+        for i in range(1 if q else 12):   # frees running concurrently with other operations, and crash points inside them
+            jobs.append(conccrash_job("conccrash%d" % i, seed * 100 + 85 + i, 2 + i % 3, 3 if q else 6, 6 if q else 8, av, 60 if q else 150, 2 if q else 4))
     elif prop == "C10":
         n = 5 if q else 40
         for i in range(n):
@@ -749,6 +793,8 @@ def plan(prop, tier, seed, known):
             jobs.append(crash_job("crashbig%d" % i, seed * 100 + 50 + i, "crashbig", 1, 12 if q else 20, av, disk=3400,
                                   extra=["-loss", "1", "-cont", "2", "-nested", "1", "-stride", "3" if q else "1"]))
         jobs.append(probe_job(prop, av))
+        for i in range(2 if q else 16):   # crash points inside concurrent histories (group commits of several clients' transactions)
+            jobs.append(conccrash_job("conccrash%d" % i, seed * 100 + 95 + i, 2 + i % 3, 3 if q else 6, 6 if q else 8, av, 60 if q else 150, 2 if q else 4))
         jobs.append({"name": "Wal_MC", "kind": "mc", "module": "Wal.tla", "cfg": "Wal_MC.cfg"})
         jobs.append({"name": "Wal_MC_raw(negative control)", "kind": "mc", "module": "Wal.tla", "cfg": "Wal_MC_raw.cfg", "expect_violation": True})
     elif prop == "C07":
@@ -770,6 +816,8 @@ def plan(prop, tier, seed, known):
         for k in sel:
             jobs.append({"name": "win%d" % k, "kind": "lin", "driver": ["windows", "-part", str(k), "-parts", str(parts)]})
         jobs.append({"name": "wingetalloc", "kind": "lin", "driver": ["windows", "-part", "-1", "-parts", "1"]})
+        for i in range(1 if q else 12):   # a crash in the middle of a concurrent history leaves a linearization prefix
+            jobs.append(conccrash_job("conccrash%d" % i, seed * 100 + 90 + i, 2 + i % 3, 3 if q else 6, 6 if q else 8, av, 60 if q else 150, 2 if q else 4))
     elif prop == "C16":
         jobs.append({"name": "xdrvec", "kind": "xdr", "depth": 3 if q else 5})
     elif prop == "C11":
